@@ -9,7 +9,7 @@ usage: tools_seeded.py [name ...] [--tier quick|thorough]
 """
 import json, os, re, subprocess, sys, time
 V = os.path.dirname(os.path.abspath(__file__))
-WT = "/tmp/verif_eval_repo"
+WT = os.environ.get("VERIF_EVAL_WT", "/tmp/verif_eval_repo")
 args = [a for a in sys.argv[1:] if not a.startswith("--")]
 tier = "thorough" if "--tier=thorough" in sys.argv else "quick"
 
@@ -30,11 +30,11 @@ for name in names:
     props = meta.get("checks") or [meta["property"]]
     r = sh("git", "-C", WT, "apply", os.path.join(d, "patch.diff"))
     if r.returncode != 0:
-        results[name] = {"error": "patch does not apply: " + r.stderr[-300:]}
+        print(name, "patch does not apply:", r.stderr[-300:], flush=True)
         continue
     out = {}
     for pid in props:
-        env = dict(os.environ, PYTHONPATH=os.path.join(WT, "src"), VERIF_EVIDENCE_DIR="/tmp/verif_eval_evidence",
+        env = dict(os.environ, PYTHONPATH=os.path.join(WT, "src"), VERIF_EVIDENCE_DIR=WT + "_evidence",
                    VERIF_SEED=os.environ.get("VERIF_SEED", "0"))
         t0 = time.time()
         p = sh(os.path.join(V, "check"), pid, "--tier", tier, env=env, cwd=V)
@@ -45,8 +45,13 @@ for name in names:
                     "no_failing_input_found": bool(m and "no-failing-input-found" in m.group(3)),
                     "wall_s": round(time.time() - t0, 1), "tail": p.stdout[-300:] if p.returncode not in (0, 1) else ""}
     sh("git", "-C", WT, "checkout", "--", ".")
-    results[name] = {"property": meta["property"], "tier": tier, "checks": out,
-                     "caught": any(v["caught"] for v in out.values())}
-    print(name, json.dumps(results[name]["checks"])[:400], flush=True)
-    json.dump(results, open(res_path, "w"), indent=1)
+    entry = {"property": meta["property"], "tier": tier, "checks": out,
+             "caught": any(v["caught"] for v in out.values())}
+    print(name, json.dumps(entry["checks"])[:400], flush=True)
+    import fcntl
+    with open(res_path + ".lock", "w") as lock:      # several instances may run side by side
+        fcntl.flock(lock, fcntl.LOCK_EX)
+        results = json.load(open(res_path)) if os.path.exists(res_path) else {}
+        results[name] = entry
+        json.dump(results, open(res_path, "w"), indent=1)
 print("caught", sum(1 for v in results.values() if v.get("caught")), "of", len(results))
